@@ -73,18 +73,29 @@ Example ex_json_abstract :
 Proof. vm_compute. reflexivity. Qed.
 
 (* the replaced-ID record: nil data comes back as the empty map. Under JSON
-   this needs UnmarshalJSON to accept null under "da" (false = defect D3, which
-   C17 reports), hence the premise. *)
+   this needs UnmarshalJSON to accept null under "da" (false = defect D3): see
+   json_da_null_ok_now below. *)
 Example ex_replaced_gob :
   proj_result (decode_encode (ex_cfg false) (emb_rec ex_rec_replaced)) =
   Some (Sess.mkRec 2000000000 2000000000 (Sess.AOther 4) 5 (Some (Sess.KGen 9)) None (Some [])).
 Proof. vm_compute. reflexivity. Qed.
 
 Example ex_replaced_json :
-  json_da_null_ok = true ->
   proj_result (decode_encode (ex_cfg true) (emb_rec ex_rec_replaced)) =
   Some (Sess.mkRec 2000000000 2000000000 (Sess.AOther 4) 5 (Some (Sess.KGen 9)) None (Some [])).
-Proof. intro H. first [vm_compute; reflexivity | vm_compute in H; discriminate H]. Qed.
+Proof. vm_compute. reflexivity. Qed.
+
+(* The premise json_da_null_ok = true of every JSON theorem of C09B holds of
+   the table regenerated from the current session.go (UnmarshalJSON accepts
+   the null MarshalJSON writes for nil data). On a tree in which the repair of
+   D3 is reverted this example, ex_replaced_json above and with them the
+   obligation C09B_json_da_null_ok_now fail: the JSON theorems are never
+   vacuously true on a checked tree. *)
+Example json_da_null_ok_now : json_da_null_ok = true.
+Proof. vm_compute. reflexivity. Qed.
+
+Example da_null_ok_now_true : da_null_ok_now = true.
+Proof. vm_compute. reflexivity. Qed.
 
 (* LoadUser failing *)
 Example ex_loaduser_fails :
@@ -138,4 +149,12 @@ Example ex_fix :
   bridge_fix false ex_rec_replaced = 3 /\ bridge_fix false (Sess.codec (ex_cfg false) ex_rec_replaced) = 0 /\
   bridge_fix true (Sess.set_created ex_rec 1000000000000000000000%Z) = 1 /\
   bridge_failures [(true, ex_rec); (true, Sess.codec (ex_cfg true) ex_rec); (false, ex_rec_replaced)] 0 = [0; 3; 2; 3].
+Proof. repeat split; vm_compute; reflexivity. Qed.
+
+(* the integer-user-ID witness: its loaders told apart *)
+Example ex_int_user :
+  cs_user ex_int_user_sess = Some (mkUser (DInt 7) 3) /\
+  int7_load (DInt 7) = Some (Some (mkUser (DInt 7) 0)) /\ int7_load (DFloat (f64_of_Z 7)) = None /\
+  echo_load (DFloat (f64_of_Z 7)) = Some (Some (mkUser (DFloat (f64_of_Z 7)) 0)) /\
+  proj_rec ex_int_user_sess = None.
 Proof. repeat split; vm_compute; reflexivity. Qed.
